@@ -42,6 +42,8 @@ def same_error(a, b):
 
 
 def judge(case, part):
+    if "fault" in case:  # replay of a container fault
+        return xls_fault_case(case, part) if case["fault"]["kind"] == "xls-byte" else fault_case(case, part)
     config = case["config"]
     decls = readermachine.decls_for(config)
     fmt = decls[0]["fmt"]
@@ -198,9 +200,49 @@ def fault_case(case, part):
             part.fail(tag % ("%s-mode-ends-with-%s" % (mode, what)), case, "DataFormatError", {"events": len(events), "raised": raised})
 
 
+def xls_fault_case(case, part):
+    """One byte of the repository's .xls workbook overwritten.  The damage may change cell contents (then rows are merely
+    rejected) or break the container: nothing but a cutplace data error may end the reading, and a container failure seen
+    in 'yield' mode is a container failure in the other modes too."""
+    content = readermachine.xls_material()
+    if content is None:
+        part.note("no .xls material in the tree (not judged)")
+        return
+    part.evaluations += 1
+    part.nontrivial += 1
+    offset, value = case["fault"]["at"], case["fault"]["value"]
+    if offset >= len(content) or content[offset] == value:
+        return
+    path = os.path.join(readermachine.tmpdir(), "faulty.xls")
+    with open(path, "wb") as binary:
+        binary.write(content[:offset] + bytes([value]) + content[offset + 1:])
+    endings = {}
+    with readermachine.quiet_stdout():  # xlrd reports oddities of damaged files on the process's standard output
+        if not readermachine.xls_terminates(path):
+            part.note("damage on which xlrd does not terminate (reported by C10, not judged here)")
+            return
+        for mode in MODES:
+            cid = readermachine.xls_cid()
+            events, raised = api_rows(cid, path, mode)
+            part.transitions += 1
+            part.validated += 1
+            ending = ("foreign:" if raised and raised.get("foreign") else "") + (raised["type"] if raised else "complete")
+            endings[mode] = ending
+            part.outcome("xls-fault:%s" % ending)
+            if ending.startswith("foreign"):
+                part.fail("excel|fault:xls-byte|%s-mode-ends-with-%s" % (mode, ending), case, "complete or a data error", {"type": raised["type"]})
+    if not any(e.startswith("foreign") for e in endings.values()):
+        if (endings["yield"] == "DataFormatError") != (endings["continue"] == "DataFormatError") or (endings["yield"] == "DataFormatError" and endings["raise"] == "complete") \
+                or (endings["yield"] == "complete" and endings["raise"] == "DataFormatError"):
+            part.fail("excel|fault:xls-byte|modes-disagree-about-the-container", case, "a container failure in every mode or in none", endings)
+
+
 def faults(item):
     part = Part()
     for case in item:
+        if case["fault"]["kind"] == "xls-byte":
+            xls_fault_case(case, part)
+            continue
         fault_case(case, part)
     part.sample(item[0], limit=1)
     return part
@@ -234,6 +276,11 @@ def fault_cases(tier):
             cases.append({"config": config, "table": table, "fault": {"kind": "truncate", "at": at}})
         cases.append({"config": config, "table": table, "fault": {"kind": "truncate", "at": size - 1}})
         cases.append({"config": config, "table": table, "fault": {"kind": "no-central-directory"}})
+    material = readermachine.xls_material()
+    if material is not None:
+        for at in range(0, len(material), 7 if tier == "quick" else 1):
+            for value in (0xFF,) if tier == "quick" else (0x00, 0xFF, 0x80, 0x01):
+                cases.append({"config": None, "table": None, "fault": {"kind": "xls-byte", "at": at, "value": value}})
     return cases
 
 
@@ -258,7 +305,7 @@ def run(ctx):
     all_faults = fault_cases(ctx.tier)
     ctx.pmap(MOD, "faults", engine.chunks(all_faults, 25), label="C06 faults")
     ctx.bound = {"mode comparison": "%d CID/format configurations, tables up to %s rows (BFS with merging)" % (len(items), "4 (files 2)" if quick else "6 (files 4)"),
-                 "container faults": "%d faults: undecodable byte (3 encodings) / unterminated quote / record cut short by 1..6 at every row; ods and xlsx archives truncated at every %s byte, central directory removed" % (len(all_faults), "64th" if quick else "single")}
+                 "container faults": "%d faults: undecodable byte (3 encodings) / unterminated quote / record cut short by 1..6 at every row; ods and xlsx archives truncated at every %s byte, central directory removed; one byte of the tree's own .xls workbook overwritten (every %s offset, %s)" % (len(all_faults), "64th" if quick else "single", "7th" if quick else "single", "0xFF" if quick else "0x00, 0xFF, 0x80, 0x01")}
     ctx.rule = ("relational (differential) oracle: the three modes of cutplace.rows and Reader counters are compared with each other on every explored table; "
                 "fault cases must end with DataFormatError in every mode; non-trivial = table with at least one rejected row, or a fault case")
     ctx.assumptions = ["rows before a container fault may or may not have been produced (decoders buffer)",
